@@ -1062,8 +1062,10 @@ def run_generated(rep, tier):
 
 
 def run(rep, tier):
-    run_macro(rep, tier)
-    run_generated(rep, tier)
+    with rep.part('macro client/server'):
+        run_macro(rep, tier)
+    with rep.part('generated client/server'):
+        run_generated(rep, tier)
     twins = [{'op': 'loopback_gen', 'endpoint': 'g1', 'path_arg': -2147483648, 'query_arg': b'/+%'.hex(), 'header_arg': 2147483647, 'token': 'a+/='},
              {'op': 'loopback_gen', 'endpoint': 'g2', 'p_arg': b'%2F'.hex(), 'opt_arg': None, 'lst_arg': [3, -4], 'bar_arg': b' ~ '.hex(), 'token': 'x=='},
              {'op': 'loopback_gen', 'endpoint': 'g2', 'p_arg': '', 'opt_arg': -1, 'lst_arg': [], 'bar_arg': None, 'token': 'x'},
